@@ -112,25 +112,47 @@ class Proof:
     self.timeout_ms = timeout_ms or (15000 if ctx.tier == "quick" else 60000)
     self.full = ctx.session(self.bg, timeout_ms=self.timeout_ms)
     self.unproved = []
+    self.facts = {}  # lemma name -> formula (proved)
 
   def assume(self, *facts):
     self.bg += list(facts)
     self.full.add(*facts)
 
+  def _using(self, using):
+    out = []
+    for u in using:
+      if isinstance(u, str):
+        if u in self.facts:
+          out.append(self.facts[u])
+      else:
+        out.append(u)
+    return out
+
   def lemma(self, name, goal, using=None):
-    """try to prove `goal`; if proved add it to the session.  using: facts (background members / earlier lemmas) that
-    suffice - proving from a subset of true facts is sound and much faster"""
+    """try to prove `goal`; if proved add it to the session.  using: facts (background members / names of earlier lemmas)
+    that suffice - proving from a subset of true facts is sound and much faster"""
+    short = name
     name = self.prefix + "lemma/" + name
     res = None
+    broken = (using is None and len(self.unproved) >= 3) or (using is not None and any(isinstance(u, str) and u not in self.facts for u in using))
+    if broken:
+      # the proof script no longer matches the code (earlier steps failed): do not burn solver time, leave it to the goals
+      self.unproved.append(name)
+      self.ctx.log(f"lemma {name}: skipped (depends on unproved steps)")
+      return False
     if using is not None:
-      small = kh.Session(using, timeout_ms=min(self.timeout_ms, 10000))
-      res = small.prove(name, goal)
+      for tactic in (None, "qfnra-nlsat"):
+        small = kh.Session(self._using(using), timeout_ms=min(self.timeout_ms, 5000), tactic=tactic)
+        res = small.prove(name, goal)
+        if res.status == "unsat":
+          break
     if res is None or res.status != "unsat":
       res = self.full.prove(name, goal)
     self.ctx.log(f"lemma {name}: {res.status} {res.secs:.2f}s")
     if res.status == "unsat":
       self.ctx._rec(res)
       self.full.add(goal)
+      self.facts[short] = goal
       return True
     res.status = "unproved-lemma:" + res.status
     res.kind = "lemma"
@@ -138,26 +160,100 @@ class Proof:
     self.unproved.append(name)
     return False
 
-  def goal(self, name, goal, guard=True, desc=None, extra_names=None):
-    name = self.prefix + name
-    names = dict(self.names, **(extra_names or {}))
-    t0 = time.time()
+  def _decide(self, name, goal, guard, using):
+    """-> ("unsat", None) | ("sat", [guards under which the full session has a model, pinned ones first]) | ("unknown", None)"""
+    if using is not None and not any(isinstance(u, str) and u not in self.facts for u in using):
+      for tactic in (None, "qfnra-nlsat"):
+        small = kh.Session(self._using(using), timeout_ms=min(self.timeout_ms, 5000), tactic=tactic)
+        r, dt, m = small._check([guard, core.Not(goal)])
+        self.ctx.log(f"goal {name} (from listed facts, {tactic or 'default'}): {r} {dt:.2f}s")
+        if r == "unsat":
+          self.ctx._rec(kh.QResult(name, "unsat", dt))
+          return "unsat", None
+    if self.unproved:
+      self.full.s.set("timeout", 5000)
     r, dt, m = self.full._check([guard, core.Not(goal)])
+    self.full.s.set("timeout", self.timeout_ms)
     self.ctx.log(f"goal {name}: {r} {dt:.2f}s")
     if r == "unsat":
       self.ctx._rec(kh.QResult(name, "unsat", dt))
-      return True
+      return "unsat", None
+    cands = []
+    self.full.s.set("timeout", 3000)
+    try:
+      for i, pin in enumerate(self.pins):
+        r2, _, _ = self.full._check([guard, pin, core.Not(goal)])
+        if r2 == "sat":
+          cands.append(z3.And(core.zbool(guard), pin))
+          if len(cands) >= 3:
+            break
+    finally:
+      self.full.s.set("timeout", self.timeout_ms)
     if r == "sat":
-      self.ctx.prove(self.full, name, goal, guard, names=names, replay=self.replay, desc=desc)
-      return False
-    for i, pin in enumerate(self.pins):
-      r2, _, _ = self.full._check([guard, pin, core.Not(goal)])
-      if r2 == "sat":
-        self.ctx.prove(self.full, name, goal, z3.And(core.zbool(guard), pin), names=names, replay=self.replay, desc=desc)
-        return False
+      cands.append(guard)
+    return ("sat", cands) if cands else ("unknown", None)
+
+  def _report_sat(self, name, goal, cands, names, desc):
+    """hand the counterexample to ctx.prove; the replay tries the models of all candidate guards (pinned inputs give
+    well-conditioned float32 replays) until one reproduces"""
+
+    def multi(model):
+      last = (False, "no model")
+      for g in cands:
+        r, _, m = self.full._check([g, core.Not(goal)])
+        if r != "sat":
+          continue
+        last = self.replay(m)
+        if last[0]:
+          return last
+      return last
+
+    self.ctx.prove(self.full, name, goal, cands[0], names=names, replay=multi, desc=desc)
+
+  def _inconclusive(self, name, t0):
     self.ctx._rec(kh.QResult(name, "unknown", time.time() - t0))
     self.ctx.error(f"query {self.ctx.unit}:{name} inconclusive: unknown after {time.time() - t0:.1f}s (no model at the pinned inputs either); unproved lemmas: {self.unproved}")
     return False
+
+  def goal(self, name, goal, guard=True, desc=None, extra_names=None, using=None):
+    from wsym import report
+
+    name = self.prefix + name
+    names = dict(self.names, **(extra_names or {}))
+    t0 = time.time()
+    key = f"{self.ctx.unit}:{name}"
+    kf = next((k for k in self.ctx.known if k["when"] and report._key_match(k["key"], key)), None)
+    if kf is not None:
+      # listed finding with a when-clause: everything outside the clause must still be proved (in general, not at a pin)
+      try:
+        w = eval(kf["when"], {"z3": z3, "And": z3.And, "Or": z3.Or, "Not": z3.Not}, dict(names))
+      except Exception as ex:
+        self.ctx.error(f"known-finding when-clause for {key} failed to evaluate: {ex}")
+        return False
+      st, g = self._decide(name + "#outside-known", goal, z3.And(core.zbool(guard), z3.Not(w)), using)
+      if st == "unknown":
+        return self._inconclusive(name + "#outside-known", t0)
+      if st == "unsat":
+        st_in, g_in = self._decide(name, goal, z3.And(core.zbool(guard), w), using)
+        if st_in == "unknown":
+          return self._inconclusive(name, t0)
+        if st_in == "sat":
+          q = self.ctx._rec(kh.QResult(name, "sat", time.time() - t0))
+          q["known"] = True
+          hit = f"KNOWN-FINDING: property={self.ctx.pid} {kf['key']} when [{kf['when']}] :: {kf['desc']}"
+          if hit not in self.ctx.known_hits:
+            self.ctx.known_hits.append(hit)
+          return False
+        return True
+      self._report_sat(name, goal, g, names, desc)
+      return False
+    st, g = self._decide(name, goal, guard, using)
+    if st == "unsat":
+      return True
+    if st == "sat":
+      self._report_sat(name, goal, g, names, desc)
+      return False
+    return self._inconclusive(name, t0)
 
 
 def pin_vec(v, vals):
@@ -391,7 +487,7 @@ def unit_make_frame(ctx):
   names = {"a0": a[0], "a1": a[1], "a2": a[2]}
   pins = [pin_vec(a, p) for p in PIN3]
   sess = ctx.session(kt.bg + [nz])
-  ctx.reach(sess, "twin:nonzero-input", True)
+  ctx.reach(sess, "twin:nonzero-input", pins[0])
   cases = [("Y", None), ("Z", None)]
   have = len(gi.norms) == 2
   for case, _ in cases:
@@ -403,7 +499,7 @@ def unit_make_frame(ctx):
     else:
       cc = (a[1] * a[1] * 3 < a[0] * a[0] + a[2] * a[2]) if case == "Y" else z3.Not(a[1] * a[1] * 3 < a[0] * a[0] + a[2] * a[2])
     P = Proof(ctx, kt.bg + [nz, cc], names, rp, prefix=f"{case}/", pins=pins)
-    ctx.reach(P.full, f"twin:case-{case}", True)
+    ctx.reach(P.full, f"twin:case-{case}", pins[0] if case == "Z" else pins[3])
     if have:
       P.lemma("len0>0", l0 > 0)
       P.lemma("x.x=1", dot(n0, n0) == 1)
@@ -411,22 +507,25 @@ def unit_make_frame(ctx):
       P.lemma("|y1|^2", l1 * l1 == 1 - e * e)
       P.lemma("len1>0", l1 > 0)
       P.lemma("x.y1=0", dot(n0, x1) == 0)
-      P.lemma("x.y*len1=0", dot(n0, n1) * l1 == 0)
+      P.lemma("y*len1=y1", veq(scl(n1, l1), x1))
+      P.lemma("x.y*len1=0", dot(n0, n1) * l1 == 0, using=["y*len1=y1", "x.y1=0"])
       P.lemma("x.y=0", dot(n0, n1) == 0)
       P.lemma("y.y=1", dot(n1, n1) == 1)
       P.lemma("y-is-n1", veq(y, n1))
       P.lemma("x-is-n0", veq(x, n0))
       P.lemma("z-is-n0xn1", veq(z, cross(n0, n1)))
       P.lemma("lagrange", dot(cross(n0, n1), cross(n0, n1)) == dot(n0, n0) * dot(n1, n1) - dot(n0, n1) * dot(n0, n1), using=[])
+      P.lemma("|n0xn1|=1", dot(cross(n0, n1), cross(n0, n1)) == 1, using=["x.x=1", "y.y=1", "x.y=0"])
+      P.lemma("z.z=|n0xn1|^2", dot(z, z) == dot(cross(n0, n1), cross(n0, n1)), using=["z-is-n0xn1"])
       P.lemma("x-cross-a", veq(cross(n0, a), [0, 0, 0]), using=[veq(scl(n0, l0), a)])
       P.lemma("x.a", dot(n0, a) == l0 * dot(n0, n0), using=[veq(scl(n0, l0), a)])
     P.goal("frame/x-unit", dot(x, x) == 1, desc="make_frame: first axis is not a unit vector")
-    P.goal("frame/x-along-input", z3.And(veq(cross(x, a), [0, 0, 0]), dot(x, a) > 0), desc="make_frame: first axis is not the direction of the given normal")
+    P.goal("frame/x-along-input", z3.And(veq(cross(x, a), [0, 0, 0]), dot(x, a) > 0), using=["x-is-n0", "x-cross-a", "x.a", "len0>0", "x.x=1"], desc="make_frame: first axis is not the direction of the given normal")
     P.goal("frame/y-unit", dot(y, y) == 1, desc="make_frame: second axis is not a unit vector")
     P.goal("frame/x-perp-y", dot(x, y) == 0, desc="make_frame: second axis is not orthogonal to the normal")
     P.goal("frame/right-handed", veq(z, cross(x, y)), desc="make_frame: third axis is not x cross y")
-    P.goal("frame/z-unit", dot(z, z) == 1, desc="make_frame: third axis is not a unit vector")
-    P.goal("frame/z-perp", z3.And(dot(x, z) == 0, dot(y, z) == 0), desc="make_frame: third axis is not orthogonal to the others")
+    P.goal("frame/z-unit", dot(z, z) == 1, using=["z.z=|n0xn1|^2", "|n0xn1|=1"], desc="make_frame: third axis is not a unit vector")
+    P.goal("frame/z-perp", z3.And(dot(x, z) == 0, dot(y, z) == 0), using=["z-is-n0xn1", "x-is-n0", "y-is-n1"], desc="make_frame: third axis is not orthogonal to the others")
 
 
 def unit_plane_sphere(ctx):
@@ -495,26 +594,29 @@ def unit_closest(ctx):
   ctx.notes.append(
     "closest_segment_point divides by |ab|^2 + 1e-6: the returned point is the exact closest point only up to that regulariser; proved: it is on the segment and the optimality residual (pt - x).(b - a) is in [0, 1e-6] (<= 0 at the a end, >= 0 at the b end). For segments shorter than ~3 mm the parameter is off by more than 10 % (|ab|^2 / (|ab|^2 + 1e-6))"
   )
-  kt, gi = run_wrapper("k_closest_segment_point", {"out": [1]}, divmode="poly")
+  kt, gi = run_wrapper("k_closest_segment_point", {"out": [1]})
   a, b, pt = vec_arg(kt, "a"), vec_arg(kt, "b"), vec_arg(kt, "pt")
   x = out_vec(kt, "out", 0, 3)
   ab = sub(b, a)
   L2, dt = dot(ab, ab), dot(sub(pt, a), ab)
   u, t = z3.Real("u_ref"), z3.Real("t_ref")
-  wit = [u * (L2 + Q(EPS)) == dt, t == z3.If(u < 0, 0, z3.If(u > 1, 1, u))]
+  wit = [u == dt / (L2 + Q(EPS)), t == z3.If(u < 0, 0, z3.If(u > 1, 1, u))]
   rp = lib.make_replay(ctx, kt, LOC + "k_closest_segment_point", "closest", "goal", goal="checks.geom_c20:goal_closest")
   pins = [z3.And(pin_vec(a, p), pin_vec(b, q), pin_vec(pt, s)) for p, q, s in [((0, 0, 0), (1, 0, 0), ("1/2", 1, 0)), ((0, 0, 0), (0, 0, 2), (1, 1, 5)), ((1, 1, 1), (2, 3, 1), (0, 0, 0)), ((0, 0, 0), ("1/1000", 0, 0), ("1/2000", "1/100", 0))]]
   P = Proof(ctx, kt.bg + wit, {"t": t}, rp, pins=pins)
   ctx.reach(P.full, "twin:interior", z3.And(t > 0, t < 1))
   P.lemma("den>0", L2 + Q(EPS) > 0, using=[])
   P.lemma("L2>=0", L2 >= 0, using=[])
+  P.lemma("u*den", u * (L2 + Q(EPS)) == dt, using=[wit[0], "den>0"])
   P.goal("on-segment", z3.And(t >= 0, t <= 1, veq(x, add(a, scl(ab, t)))), desc="closest_segment_point: result is not a + t (b - a) with t = clamp((pt-a).(b-a) / (|b-a|^2 + 1e-6), 0, 1)")
   rho = dot(sub(pt, add(a, scl(ab, t))), ab)
   P.lemma("rho", rho == dt - t * L2, using=[])
-  P.lemma("interior-rho", z3.Implies(z3.And(u >= 0, u <= 1), rho == u * Q(EPS)))
-  P.goal("optimal/interior-residual", z3.And(rho >= 0, rho <= Q(EPS)), z3.And(t > 0, t < 1), desc="closest_segment_point: interior result is not (within the 1e-6 regulariser) the foot of the perpendicular")
-  P.goal("optimal/end-a", rho <= 0, t == 0, desc="closest_segment_point: returns end a although a point further along the segment is closer")
-  P.goal("optimal/end-b", rho >= 0, t == 1, desc="closest_segment_point: returns end b although an interior point is closer")
+  P.lemma("interior-rho", z3.Implies(z3.And(u >= 0, u <= 1), rho == u * Q(EPS)), using=["rho", "u*den", wit[1]])
+  P.lemma("end-b-rho", z3.Implies(u >= 1, rho >= 0), using=["rho", "u*den", wit[1], "L2>=0"])
+  P.lemma("end-a-rho", z3.Implies(u <= 0, rho <= 0), using=["rho", "u*den", wit[1], "L2>=0", "den>0"])
+  P.goal("optimal/interior-residual", z3.And(rho >= 0, rho <= Q(EPS)), z3.And(t > 0, t < 1), using=["interior-rho", wit[1]], desc="closest_segment_point: interior result is not (within the 1e-6 regulariser) the foot of the perpendicular")
+  P.goal("optimal/end-a", rho <= 0, t == 0, using=["end-a-rho", wit[1]], desc="closest_segment_point: returns end a although a point further along the segment is closer")
+  P.goal("optimal/end-b", rho >= 0, t == 1, using=["end-b-rho", wit[1]], desc="closest_segment_point: returns end b although an interior point is closer")
 
 
 def unit_sphere_capsule(ctx):
@@ -540,7 +642,7 @@ def unit_sphere_capsule(ctx):
   cp, ax, rc, hl = vec_arg(kt, "capsule_pos"), vec_arg(kt, "capsule_axis"), R(kt.args["capsule_radius"]), R(kt.args["capsule_half_length"])
   dist, pos, n = R(kt.post("dist_out", 0)), out_vec(kt, "pos_out", 0, 3), out_vec(kt, "normal_out", 0, 3)
   rp = lib.make_replay(ctx, kt, LOC + "k_sphere_capsule", "sphere_capsule", "goal", goal="checks.geom_c20:goal_sphere_capsule")
-  pins = [z3.And(pin_vec(c, a), pin_vec(cp, b), pin_vec(ax, d), rs == Q(x), rc == Q(y), hl == Q(h)) for a, b, d, x, y, h in [((1, 2, 2), (0, 0, 0), (0, 0, 1), "1", "1/2", "1"), ((0, 3, 0), (1, 0, 0), (1, 0, 0), "1/2", "1/2", "2"), ((1, 1, 5), (0, 0, 0), (0, "3/5", "4/5"), "1", "1", "1/2")]]
+  pins = [z3.And(pin_vec(c, a), pin_vec(cp, b), pin_vec(ax, d), rs == Q(x), rc == Q(y), hl == Q(h)) for a, b, d, x, y, h in [((1, 2, "-1/2"), (0, 0, 0), (0, 0, 1), "1", "1/2", "1"), ((1, 2, -2), (0, 0, 0), (0, 0, 1), "1", "1/4", "1"), ((1, 2, 2), (0, 0, 0), (0, 0, 1), "1", "1/2", "1"), ((0, 3, 0), (1, 0, 0), (1, 0, 0), "1/2", "1/2", "2"), ((1, 1, 5), (0, 0, 0), (0, "3/5", "4/5"), "1", "1", "1/2")]]
   P = Proof(ctx, kt.bg, {"sphere_radius": rs, "capsule_radius": rc, "half_length": hl, "dist": dist}, rp, pins=pins)
   ctx.reach(P.full, "twin:reachable", True)
   if len(calls) != 1:
@@ -552,14 +654,60 @@ def unit_sphere_capsule(ctx):
   _sphere_pair_goals(P, c, rs, xs, rc, dist, pos, n, "sphere_capsule (sphere vs sphere of the capsule radius at the segment point)")
 
 
+def goal_nwn(spec, pre, post):
+  x = _f32(_argv(spec, "x"))
+  n, l = post["n_out"][0].astype(np.float64), float(post["norm_out"][0])
+  L = float(np.linalg.norm(x))
+  msgs = []
+  if abs(l - L) > TOL * (1 + L):
+    msgs.append(f"norm {l} but |x| = {L}")
+  if L > 1e-6 and np.abs(n - x / L).max() > TOL:
+    msgs.append(f"direction {n.tolist()} but x/|x| = {(x / L).tolist()}")
+  return (not msgs), "normalize_with_norm: " + ("; ".join(msgs) or "ok")
+
+
+def nwn_contract(x, n, l):
+  return [l >= 0, l * l == dot(x, x), z3.Implies(l > 0, veq(scl(n, l), x)), z3.Implies(l > 0, dot(n, n) == 1), z3.Implies(l <= 0, veq(n, x))]
+
+
+def prove_nwn_contract(ctx):
+  """the contract used for normalize_with_norm in plane_capsule holds for the real function"""
+  kt, gi = run_wrapper("k_normalize_with_norm", {"n_out": [1], "norm_out": [1]}, divmode="poly")
+  x = vec_arg(kt, "x")
+  n, l = out_vec(kt, "n_out", 0, 3), R(kt.post("norm_out", 0))
+  rp = lib.make_replay(ctx, kt, LOC + "k_normalize_with_norm", "normalize_with_norm", "goal", goal="checks.geom_c20:goal_nwn")
+  P = Proof(ctx, kt.bg, {"x0": x[0], "x1": x[1], "x2": x[2]}, rp, prefix="normalize_with_norm/", pins=[pin_vec(x, p) for p in PIN3[:4]] + [pin_vec(x, (0, 0, 0))])
+  c = nwn_contract(x, n, l)
+  ok = P.goal("norm", z3.And(c[0], c[1]), desc="normalize_with_norm: returned norm is not |x|")
+  ok &= P.goal("direction", c[2], desc="normalize_with_norm: returned vector times norm is not x")
+  P.lemma("n.n*l^2", z3.Implies(l > 0, dot(n, n) * l * l == l * l), using=[c[1], c[2]])
+  ok &= P.goal("unit", c[3], using=["n.n*l^2"], desc="normalize_with_norm: returned vector is not unit")
+  ok &= P.goal("zero", c[4], desc="normalize_with_norm: zero input is not returned unchanged")
+  return ok
+
+
 def unit_plane_capsule(ctx):
   from mujoco_warp._src import collision_primitive_core as cpc
   from mujoco_warp._src import math as mjmath
 
   ctx.encode(cpc.plane_capsule, cpc.plane_sphere, mjmath.normalize_with_norm)
-  ctx.bound(note="no loops; all inputs symbolic")
+  ctx.bound(note="no loops; all inputs symbolic; normalize_with_norm is first proved to satisfy its contract and then used through it")
   ctx.assume("plane normal and capsule axis are unit vectors (columns of rotation matrices)", "floats are reals")
-  kt, gi = run_wrapper("k_plane_capsule", {"dist_out": [1], "pos_out": [2], "frame_out": [1]}, divmode="poly")
+  if not prove_nwn_contract(ctx):
+    ctx.notes.append("normalize_with_norm contract not established: plane_capsule frame claims not attempted")
+    return
+  calls = []
+
+  def summary(it, fr, args):
+    k = len(calls)
+    xv = [R(c) for c in args[0].c]
+    l = z3.Real(f"nwn_len!{k}")
+    n = [z3.Real(f"nwn!{k}_{i}") for i in range(3)]
+    it.assumes += nwn_contract(xv, n, l)
+    calls.append((xv, n, l))
+    return (Vec(n, (3,), "f"), l)
+
+  kt, gi = run_wrapper("k_plane_capsule", {"dist_out": [1], "pos_out": [2], "frame_out": [1]}, summaries={mjmath.normalize_with_norm.key: summary})
   n, p = vec_arg(kt, "plane_normal"), vec_arg(kt, "plane_pos")
   cp, ax, rc, hl = vec_arg(kt, "capsule_pos"), vec_arg(kt, "capsule_axis"), R(kt.args["capsule_radius"]), R(kt.args["capsule_half_length"])
   F = out_vec(kt, "frame_out", 0, 9)
@@ -569,43 +717,60 @@ def unit_plane_capsule(ctx):
   bsq = 1 - na * na  # squared norm of the capsule axis projected on the plane (unit n, axis)
   proj = sub(ax, scl(n, na))
   names = {"bnorm_sq": bsq, "n0": n[0], "n1": n[1], "n2": n[2], "axis0": ax[0], "axis1": ax[1], "axis2": ax[2]}
-  pins = [
-    z3.And(pin_vec(n, a), pin_vec(ax, b), pin_vec(p, (0, 0, 0)), pin_vec(cp, (0, "1/2", 1)), rc == Q("1/4"), hl == Q("1/2"))
-    for a, b in [((0, 0, 1), (1, 0, 0)), ((0, 0, 1), (0, 0, 1)), (("3/5", 0, "4/5"), (0, 1, 0)), (("2/7", "3/7", "6/7"), ("2/7", "3/7", "6/7")), (("2/7", "3/7", "6/7"), ("3/7", "-6/7", "2/7")), ((0, "4/5", "3/5"), (0, "3/5", "4/5"))]
-  ]
-  P = Proof(ctx, kt.bg + [dot(n, n) == 1, dot(ax, ax) == 1], names, rp, pins=pins)
-  ctx.reach(P.full, "twin:aligned-regime", bsq >= Q("1/4"))
-  ctx.reach(P.full, "twin:fallback-regime", bsq < Q("1/4"))
-  P.lemma("|proj|^2", dot(proj, proj) == bsq, using=[dot(n, n) == 1, dot(ax, ax) == 1])
-  P.lemma("n.proj=0", dot(n, proj) == 0, using=[dot(n, n) == 1])
-  P.goal("frame/x-is-plane-normal", veq(x, n), desc="plane_capsule: first frame axis is not the plane normal")
-  ortho = z3.And(dot(y, y) == 1, dot(x, y) == 0, veq(z, cross(x, y)))
-  # split so that the regime of the known defect (fallback axis not re-orthogonalised) has its own query
+  pinv = [((0, 0, 1), (1, 0, 0)), (("3/5", 0, "4/5"), (0, 1, 0)), (("2/7", "3/7", "6/7"), ("3/7", "-6/7", "2/7")), ((0, 0, 1), (0, 0, 1)), (("2/7", "3/7", "6/7"), ("2/7", "3/7", "6/7")), ((0, "4/5", "3/5"), (0, "3/5", "4/5"))]
+  pins = [z3.And(pin_vec(n, a), pin_vec(ax, b), pin_vec(p, (0, 0, 0)), pin_vec(cp, (0, "1/2", 1)), rc == Q("1/4"), hl == Q("1/2")) for a, b in pinv]
+  unit = [dot(n, n) == 1, dot(ax, ax) == 1]
+  base = kt.bg + unit
   big = bsq >= Q("1/4")
-  for k, g in [("y*len=proj", None)]:
-    pass
-  if len(gi.norms) == 0:
-    # normalize_with_norm: x / norm with norm = sqrt(x.x)  (poly division): y * norm = proj, norm^2 = bsq
-    nrm = z3.Real("bnorm_ref")
-    P.assume(nrm >= 0, nrm * nrm == bsq)
-    P.lemma("aligned: y*norm=proj", z3.Implies(big, veq(scl(y, nrm), proj)))
-    P.lemma("aligned: y.y*norm^2", z3.Implies(big, dot(y, y) * nrm * nrm == bsq))
-    P.lemma("aligned: norm>0", z3.Implies(big, nrm > 0))
-    P.lemma("aligned: y.y=1", z3.Implies(big, dot(y, y) == 1))
-    P.lemma("aligned: x.y*norm=0", z3.Implies(big, dot(n, y) * nrm == 0))
-    P.lemma("aligned: x.y=0", z3.Implies(big, dot(n, y) == 0))
-  P.goal("frame/orthonormal", ortho, desc="plane_capsule: contact frame is not orthonormal / right-handed")
-  P.goal("frame/y-along-capsule", z3.And(veq(cross(y, proj), [0, 0, 0]), dot(y, proj) > 0), big, desc="plane_capsule: second frame axis is not the capsule axis projected on the plane (MuJoCo aligns the frame with the capsule)")
-  for i, sgn in enumerate((1, -1)):
-    e = add(cp, scl(ax, hl * sgn))
-    dist = R(kt.post("dist_out", 0, k=i))
-    pos = out_vec(kt, "pos_out", i, 3)
-    P.goal(f"dist{i}/signed-distance", dist == dot(sub(e, p), n) - rc, desc=f"plane_capsule: dist[{i}] is not the signed distance of end cap {i} to the plane")
-    s = sub(e, scl(n, rc))
-    q = sub(s, scl(n, dist))
-    P.lemma(f"foot{i}", dot(sub(q, p), n) == dot(sub(e, p), n) - (rc + dist) * dot(n, n), using=[])
-    P.goal(f"pos{i}/foot-point-on-plane", dot(sub(q, p), n) == 0, desc=f"plane_capsule: foot point of contact {i} is not on the plane")
-    P.goal(f"pos{i}/midway", veq(scl(pos, 2), add(s, q)), desc=f"plane_capsule: pos[{i}] is not midway between the end cap surface and the plane")
+  for regime, cond, twin in (("aligned", big, pins[0]), ("fallback", z3.Not(big), pins[3])):
+    P = Proof(ctx, base + [cond], names, rp, prefix=f"{regime}/", pins=pins)
+    ctx.reach(P.full, f"twin:{regime}-regime", twin)
+    P.goal("frame/x-is-plane-normal", veq(x, n), desc="plane_capsule: first frame axis is not the plane normal")
+    if len(calls) == 1 and regime == "aligned":
+      xv, nn, l = calls[0]
+      P.lemma("arg-is-proj", veq(xv, proj))
+      P.lemma("|proj|^2", dot(proj, proj) == bsq, using=unit)
+      P.lemma("n.proj=0", dot(n, proj) == 0, using=unit)
+      P.lemma("l^2", l * l == bsq, using=["arg-is-proj", "|proj|^2", l * l == dot(xv, xv)])
+      P.lemma("l>=1/2", l >= Q("1/2"), using=["l^2", l >= 0, cond])
+      P.lemma("nn*l=proj", veq(scl(nn, l), proj), using=["arg-is-proj", "l>=1/2", z3.Implies(l > 0, veq(scl(nn, l), xv))])
+      P.lemma("nn.nn=1", dot(nn, nn) == 1, using=["l>=1/2", z3.Implies(l > 0, dot(nn, nn) == 1)])
+      P.lemma("y-is-nn", veq(y, nn))
+      P.lemma("x-is-n", veq(x, n))
+      P.lemma("(n.nn)*l=0", dot(n, nn) * l == 0, using=["nn*l=proj", "n.proj=0"])
+      P.lemma("n.nn=0", dot(n, nn) == 0, using=["(n.nn)*l=0", "l>=1/2"])
+      P.lemma("y.y=1", dot(y, y) == 1, using=["y-is-nn", "nn.nn=1"])
+      P.lemma("x.y=0", dot(x, y) == 0, using=["y-is-nn", "x-is-n", "n.nn=0"])
+      P.lemma("y*l=proj", veq(scl(y, l), proj), using=["y-is-nn", "nn*l=proj"])
+      pj = [z3.Real(f"proj_{i}") for i in range(3)]  # names for the projected axis (definitions)
+      P.assume(veq(pj, proj))
+      P.lemma("y*l=pj", veq(scl(y, l), pj), using=["y*l=proj", veq(pj, proj)])
+    if len(calls) == 1 and regime == "fallback":
+      xv, nn, l = calls[0]
+      iny = z3.And(n[1] > Q("-1/2"), n[1] < Q("1/2"))
+      P.lemma("arg-is-proj", veq(xv, proj))
+      P.lemma("|proj|^2", dot(proj, proj) == bsq, using=unit)
+      P.lemma("l^2", l * l == bsq, using=["arg-is-proj", "|proj|^2", l * l == dot(xv, xv)])
+      P.lemma("l<1/2", l < Q("1/2"), using=["l^2", l >= 0, cond])
+      P.lemma("y-default", veq(y, [0, z3.If(iny, 1, 0), z3.If(iny, 0, 1)]))
+      P.lemma("x-is-n", veq(x, n))
+      P.lemma("y.y=1", dot(y, y) == 1, using=["y-default"])
+      P.lemma("x.y", dot(x, y) == z3.If(iny, n[1], n[2]), using=["y-default", "x-is-n"])
+    ortho = z3.And(dot(y, y) == 1, dot(x, y) == 0, veq(z, cross(x, y)))
+    P.lemma("z=x cross y", veq(z, cross(x, y)))
+    P.goal("frame/orthonormal", ortho, using=["y.y=1", "x.y=0", "x.y", "z=x cross y"], desc="plane_capsule: contact frame is not orthonormal / right-handed (second axis not unit or not orthogonal to the plane normal)")
+    if regime == "aligned":
+      P.goal("frame/y-along-capsule", z3.And(veq(cross(y, pj), [0, 0, 0]), dot(y, pj) > 0), using=["y*l=pj", "y.y=1", "l>=1/2"], desc="plane_capsule: second frame axis is not the capsule axis projected on the plane (MuJoCo aligns the frame with the capsule)")
+    for i, sgn in enumerate((1, -1)):
+      e = add(cp, scl(ax, hl * sgn))
+      dist = R(kt.post("dist_out", 0, k=i))
+      pos = out_vec(kt, "pos_out", i, 3)
+      P.goal(f"dist{i}/signed-distance", dist == dot(sub(e, p), n) - rc, desc=f"plane_capsule: dist[{i}] is not the signed distance of end cap {i} to the plane")
+      s_ = sub(e, scl(n, rc))
+      q = sub(s_, scl(n, dist))
+      P.lemma(f"foot{i}", dot(sub(q, p), n) == dot(sub(e, p), n) - (rc + dist) * dot(n, n), using=[])
+      P.goal(f"pos{i}/foot-point-on-plane", dot(sub(q, p), n) == 0, desc=f"plane_capsule: foot point of contact {i} is not on the plane")
+      P.goal(f"pos{i}/midway", veq(scl(pos, 2), add(s_, q)), desc=f"plane_capsule: pos[{i}] is not midway between the end cap surface and the plane")
 
 
 def unit_validate(ctx):
